@@ -18,6 +18,7 @@ struct Rec {
 	fail_watch: Vec<String>,
 	fail_unwatch: Vec<String>,
 	fail_with_path: bool,
+	fail_kind: String,
 	// (call index, change, position of the change in the case) performed from inside that watch/unwatch call
 	inject: Vec<(usize, Value, usize)>,
 	config: Option<Arc<Config>>,
@@ -95,7 +96,12 @@ impl notify::Watcher for RecWatcher {
 		r.calls.push(format!("watch({},{},{})", self.idx, name, if rec { "r" } else { "n" }));
 		if r.fail_watch.contains(&name) {
 			// some back-ends name the path in the error they return (inotify add_watch failures do), others do not
-			let e = notify::Error::generic("injected watch failure");
+			// (and some fail for lack of resources: the inotify watch limit, as notify reports it or as the raw OS error)
+			let e = match r.fail_kind.as_str() {
+				"maxfiles" => notify::Error::new(notify::ErrorKind::MaxFilesWatch),
+				"enospc" => notify::Error::io(std::io::Error::from_raw_os_error(28)),
+				_ => notify::Error::generic("injected watch failure"),
+			};
 			return Err(if r.fail_with_path { e.add_path(path.to_owned()) } else { e });
 		}
 		let reg = &mut r.instances[self.idx].1;
@@ -172,15 +178,19 @@ struct WxCtx {
 	actions: Arc<Mutex<Vec<String>>>,
 	nerr: std::sync::atomic::AtomicUsize,
 	nact: std::sync::atomic::AtomicUsize,
+	egen: std::sync::atomic::AtomicUsize,
+	agen: std::sync::atomic::AtomicUsize,
 	on_err: Vec<(usize, Value, usize)>,
 	on_act: Vec<(usize, Value, usize)>,
 }
 
-fn apply_change_wx(ctx: &Arc<WxCtx>, ch: &Value, gen: usize) {
+fn apply_change_wx(ctx: &Arc<WxCtx>, ch: &Value, _gen: usize) {
+	use std::sync::atomic::Ordering::SeqCst;
+	// generations count the installations of each handler, whoever installs it
 	if ch["error_handler"].as_bool().unwrap_or(false) {
-		install_error_handler(ctx, gen + 1);
+		install_error_handler(ctx, ctx.egen.fetch_add(1, SeqCst) + 1);
 	} else if ch["handler"].as_bool().unwrap_or(false) {
-		install_action_handler(ctx, gen + 1);
+		install_action_handler(ctx, ctx.agen.fetch_add(1, SeqCst) + 1);
 	} else {
 		apply_change(&ctx.config, ch, &ctx.root);
 	}
@@ -226,7 +236,7 @@ async fn run_wx(case: Value, root: &Path, sh: Shared) -> Value {
 	};
 	let ctx = Arc::new(WxCtx {
 		config: config.clone(), sh: sh.clone(), root: root.to_path_buf(),
-		errs: Default::default(), actions: Default::default(), nerr: Default::default(), nact: Default::default(),
+		errs: Default::default(), actions: Default::default(), nerr: Default::default(), nact: Default::default(), egen: Default::default(), agen: Default::default(),
 		on_err: sched("on_error"), on_act: sched("on_action"),
 	});
 	install_error_handler(&ctx, 0);
@@ -277,6 +287,7 @@ async fn run(case: Value, root: &Path) -> Value {
 		r.fail_watch = strs(&case["fail_watch"]);
 		r.fail_unwatch = strs(&case["fail_unwatch"]);
 		r.fail_with_path = case["fail_with_path"].as_bool().unwrap_or(false);
+		r.fail_kind = case["fail_kind"].as_str().unwrap_or("generic").to_owned();
 		r.inject = case["changes"].as_array().unwrap().iter().enumerate().filter(|(_, c)| c["inside_call"].is_u64()).map(|(k, c)| (c["inside_call"].as_u64().unwrap() as usize, c.clone(), k)).collect();
 	}
 	let sh2 = sh.clone();
